@@ -813,7 +813,7 @@ def main():
                             "(index computation of get_native_grids in doubles vs exact)")
         check_tiles(ck, env, ck.budget(1500, 30000), use_model)
         check_cache(ck, env, ck.budget(60, 1500), use_model)
-        explore_elev(ck, env, ck.budget(100, 2500), use_model)
+        explore_elev(ck, env, ck.budget(100, 1500), use_model)
         if ck.broken() and not ck.violations:
             # failing-input search on the real code (oracle only) with the larger budget
             aligned_edges(ck, env, False)
